@@ -110,7 +110,7 @@ func TestMain(m *testing.M) {
 	daemonAddr = ln.Addr().String()
 	prometheus.DefaultRegisterer = prometheus.NewRegistry()
 	srvIP = netlab.Addr(0)
-	server.StartSCIONServer(context.Background(), log, daemonAddr, netlab.UDPAddr(srvIP, svcPort), 0, nil)
+	server.StartSCIONServer(context.Background(), log, daemonAddr, netlab.UDPAddr(srvIP, svcPort), 46, nil) // a DSCP other than the requests' traffic class
 	if hop, err = net.ListenUDP("udp", netlab.UDPAddr(netlab.Addr(1), 0)); err != nil {
 		fmt.Println("VERIF-INCONCLUSIVE: cannot bind:", err)
 		os.Exit(0)
@@ -182,6 +182,7 @@ type reqSpec struct {
 	KeyServerIA   uint64 `json:"key_server_ia"`
 	KeyClientHost string `json:"key_client_host"`
 	KeyServerHost string `json:"key_server_host"`
+	TC            uint8  `json:"traffic_class"`
 }
 
 var recK = ev.New("c13/real-keys", "rapid sequences of 1..8 authenticated NTP requests to the real SCION listener connected to a harness-provided fake SCION daemon (gRPC) whose DRKeys depend on protocol, both ISD-ASes and both hosts: requests from a few client ISD-ASes and hosts, addressed to the listener under several local host addresses (IPv4, IPv6), with the packet authenticator computed under the key for exactly these parameters or for one differing parameter (other client host, other local host, other client or server ISD-AS). Oracle: a request whose MAC was computed under another key than the one for its own addresses is never served; a request under the right key is served and its reply carries a server-direction authenticator that verifies under the same key, whatever was requested before (exercises the listener's key cache); end to end, a real SCIONClient with authentication through the same daemon succeeds. One evaluation = one request. Non-trivial: sequence that addresses the listener under >= 2 local hosts from one client ISD-AS, or contains a wrong-key request; distinct by sequence hash")
@@ -200,6 +201,7 @@ func TestPropRealKeys(t *testing.T) {
 			r := reqSpec{
 				ClientIA: rapid.SampledFrom(ias).Draw(t, "cia"), ServerIA: rapid.SampledFrom(sias).Draw(t, "sia"),
 				ClientHost: rapid.SampledFrom(hosts).Draw(t, "chost"), ServerHost: rapid.SampledFrom(srvHosts).Draw(t, "shost"),
+				TC: rapid.OneOf(rapid.Just(uint8(0)), rapid.Uint8()).Draw(t, "tc"),
 			}
 			r.KeyClientIA, r.KeyServerIA, r.KeyClientHost, r.KeyServerHost = r.ClientIA, r.ServerIA, r.ClientHost, r.ServerHost
 			mis := rapid.SampledFrom([]string{"none", "none", "none", "client-host", "server-host", "client-ia", "server-ia"}).Draw(t, "wrong-key")
@@ -244,7 +246,7 @@ func TestPropRealKeys(t *testing.T) {
 			pth, _ := emptyPath().SlayersPath()
 			opt := wire.NewAuthOpt(scion.PacketAuthSPIClient, scion.PacketAuthAlgorithm)
 			p := wire.Pkt{SrcIA: addr.IA(r.ClientIA), DstIA: addr.IA(r.ServerIA), Src: netip.MustParseAddr(r.ClientHost), Dst: netip.MustParseAddr(r.ServerHost),
-				Path: pth, SrcPort: 4444, DstPort: svcPort, Payload: b, E2E: []*slayers.EndToEndOption{opt}}
+				Path: pth, SrcPort: 4444, DstPort: svcPort, Payload: b, E2E: []*slayers.EndToEndOption{opt}, TrafficClass: r.TC}
 			raw, err := p.Serialize(opt, key[:])
 			if err != nil {
 				t.Fatalf("harness: %v", err)
@@ -322,6 +324,7 @@ func TestEndToEndRealKeys(t *testing.T) {
 	}()
 	sp, _ := emptyPath().SnetPath(lIA, lIA, relayDown.LocalAddr().(*net.UDPAddr), nil)
 	for i := 0; i < 3; i++ {
+		c.DSCP = uint8(i * 23) // 0, 23, 46: below, and equal to, the listener's
 		ctx, cancel := context.WithTimeout(context.Background(), 2*time.Second)
 		_, off, err := client.MeasureClockOffsetSCION(ctx, c.Log, []*client.SCIONClient{c},
 			udp.UDPAddr{IA: lIA, Host: netlab.UDPAddr(netlab.Addr(1), 0)}, udp.UDPAddr{IA: lIA, Host: netlab.UDPAddr(srvIP, svcPort)}, []snet.Path{sp})
